@@ -104,6 +104,11 @@ def setup_configs():
 
 
 def plan_for(prop, tier):
+    import os
     p = dict(DEFAULT[tier])
     p.update(OVERRIDE.get(prop, {}).get(tier, {}))
+    # VF_BUDGET_SCALE (e.g. 0.25) shortens exploratory runs; registered commands never set it
+    sc = float(os.environ.get("VF_BUDGET_SCALE", "1") or 1)
+    if sc != 1:
+        p["cases"] = max(100, int(p["cases"] * sc)); p["budget"] = max(5, int(p["budget"] * sc)); p["min_nontrivial"] = max(2, int(p["min_nontrivial"] * sc))
     return p
